@@ -63,6 +63,8 @@ Definition oc_receiver (c : ocase) : res (rkind * view) :=
          v <- view_of KViewMut true o s0 s1 e0 e1 ;; Ok (KViewMut, v)
   | 5 => o <- view_of KOwned true parent 0 0 (N.of_nat (oc_C c - 1)) (N.of_nat (oc_R c - 1)) ;;
          v <- view_of KViewMut true o s0 s1 e0 e1 ;; Ok (KViewMut, v)
+  (* TooDeeViewMut::new over the whole buffer as a slice *)
+  | 6 => v <- view_new (N.of_nat (oc_C c)) (N.of_nat (oc_R c)) (length (oc_data c)) ;; Ok (KViewMut, v)
   | _ => v <- view_of KOwned true parent s0 s1 e0 e1 ;; Ok (KThird, v)
   end.
 
